@@ -5,7 +5,7 @@ use crate::{
         GlobalDeclaration, IfStatement, Program, Statement, Variable, WhileStatement,
     },
     error::{SemanticErrorMessage, SplError},
-    ToRange,
+    Shiftable, ToRange,
 };
 use std::cmp::Ordering;
 
@@ -17,17 +17,24 @@ pub fn analyze(program: &mut Program, table: &GlobalTable) {
     program
         .global_declarations
         .iter_mut()
-        .map(|r| r.as_mut())
-        .filter_map(|dec| match dec {
-            GlobalDeclaration::Procedure(proc) => Some(proc),
-            _ => None,
+        .filter_map(|dec| {
+            let offset = dec.offset;
+            match dec.as_mut() {
+                GlobalDeclaration::Procedure(proc) => Some((proc, offset)),
+                _ => None,
+            }
         })
-        .for_each(|proc| {
+        .for_each(|(proc, offset)| {
             if let Some(name) = &proc.name {
                 let entry = table
                     .lookup(&name.value)
                     .expect("Named declaration without entry");
                 if let GlobalEntry::Procedure(proc_entry) = &entry {
+                    // A redeclared procedure has no entry and therefore no scope of its own.
+                    // Its statements must not be checked against the scope of the first declaration.
+                    if proc_entry.range != proc.to_range().shift(offset) {
+                        return;
+                    }
                     let lookup_table = &LookupTable {
                         local_table: Some(&proc_entry.local_table),
                         global_table: Some(table),
